@@ -300,3 +300,303 @@ Proof.
   intros Hb Hk Hs. apply autocomplete_total. apply sorted_implies_monotone_name; [exact Hb| |exact Hs].
   destruct asc; [exact Hk|apply bump_last_bytes_ok, Hk].
 Qed.
+
+(* ================================================================ histories ================================================================ *)
+(* the board cache over any history of reloads and creations (Model/C11.v: reload / install / create / run_hist) *)
+Definition sorter_ok (srt : sorter) : Prop :=
+  (forall names, bid_index names (fst srt names) /\ sorted_by less_name (names_by names (fst srt names)) = true) /\
+  (forall ents : list (list Z * list Z), bid_index (map snd ents) (snd srt ents) /\
+     sorted_by less_class (by_bids ([], []) ents (snd srt ents)) = true).
+
+Definition op_ok (o : bop) : Prop :=
+  match o with OInstall b => bytes_ok b = true | OReload => True | OCreate r => bytes_ok r = true end.
+
+Definition hist_inv (s : bst) : Prop :=
+  bbusy s = 0 /\ btbl s = firstn (Z.to_nat MAXB) (file_recs s) /\
+  Forall (fun r => bytes_ok r = true) (file_recs s) /\
+  bid_index (tnames s) (bsn s) /\ sorted_by less_name (snames s) = true /\
+  bid_index (map snd (tentries s)) (bsc s) /\ sorted_by less_class (by_bids ([], []) (tentries s) (bsc s)) = true.
+
+Lemma hist_inv_fresh : hist_inv fresh.
+Proof.
+  unfold hist_inv, fresh, bid_index. cbn. repeat split; try reflexivity; try constructor.
+Qed.
+
+Lemma sort_bcache_inv srt s : sorter_ok srt -> bbusy s = 0 -> btbl s = firstn (Z.to_nat MAXB) (file_recs s) ->
+  Forall (fun r => bytes_ok r = true) (file_recs s) -> hist_inv (sort_bcache srt s).
+Proof.
+  intros [Hn Hc] Hb Ht Hf. unfold sort_bcache. rewrite Hb. cbn [Z.eqb].
+  unfold hist_inv, snames, tnames, tentries, file_recs in *. cbn [bbusy btbl bfile bsn bsc].
+  destruct (Hn (map rec_name (btbl s))) as [Hn1 Hn2]. destruct (Hc (map rec_entry (btbl s))) as [Hc1 Hc2].
+  repeat split; assumption.
+Qed.
+
+Lemma reload_inv srt s : sorter_ok srt -> hist_inv s -> hist_inv (reload srt s).
+Proof.
+  intros Hs (Hb & Ht & Hf & _). unfold reload. apply sort_bcache_inv; [exact Hs| | |]; unfold reload_core; cbn [bfile];
+    unfold file_recs in *; destruct (bfile s) as [recs|] eqn:E; cbn [bbusy btbl bfile]; try rewrite E; try reflexivity; try assumption.
+Qed.
+
+Lemma forallb_firstn {A} (f : A -> bool) : forall n l, forallb f l = true -> forallb f (firstn n l) = true.
+Proof.
+  induction n as [|n IH]; intros l H; [reflexivity|]. destruct l as [|a l]; [reflexivity|].
+  cbn [firstn forallb] in *. apply andb_prop in H. destruct H as [H1 H2]. rewrite H1, (IH l H2). reflexivity.
+Qed.
+Lemma forallb_skipn {A} (f : A -> bool) : forall n l, forallb f l = true -> forallb f (skipn n l) = true.
+Proof.
+  induction n as [|n IH]; intros l H; [exact H|]. destruct l as [|a l]; [reflexivity|].
+  cbn [skipn forallb] in *. apply andb_prop in H. destruct H as [_ H2]. exact (IH l H2).
+Qed.
+Lemma chunks_bytes : forall fuel b, bytes_ok b = true -> Forall (fun r => bytes_ok r = true) (chunks fuel b).
+Proof.
+  induction fuel as [|f IH]; intros b H; [constructor|]. cbn [chunks]. destruct (RS <=? lenZ b); [|constructor].
+  constructor; [apply forallb_firstn, H|apply IH, forallb_skipn, H].
+Qed.
+
+Lemma install_inv srt b s : sorter_ok srt -> bytes_ok b = true -> hist_inv (install srt b s).
+Proof.
+  intros Hs Hb. unfold install, reload. apply sort_bcache_inv; [exact Hs| | |]; unfold reload_core, file_recs; cbn [bbusy btbl bfile]; try reflexivity.
+  apply chunks_bytes, Hb.
+Qed.
+
+Lemma create_inv srt r s s' : sorter_ok srt -> bytes_ok r = true -> hist_inv s -> create srt r s = Some s' -> hist_inv s'.
+Proof.
+  intros Hs Hr (Hb & Ht & Hf & _) E. unfold create in E.
+  destruct (MAXB <=? Z.of_nat (length (btbl s))) eqn:EM; [discriminate|]. apply Z.leb_gt in EM.
+  unfold reset_board in E. cbn [bbusy bfile btbl bsn bsc] in E. rewrite Hb in E. cbn [Z.eqb] in E.
+  unfold file_recs at 1 in E. cbn [bfile] in E.
+  assert (Hlen : length (btbl s) = length (file_recs s)).
+  { rewrite Ht. rewrite firstn_length. rewrite Ht, firstn_length in EM. lia. }
+  assert (Htbl : btbl s = file_recs s).
+  { rewrite Ht. apply firstn_all2. rewrite Ht, firstn_length in EM. lia. }
+  rewrite Hlen, nth_error_app2, Nat.sub_diag in E by lia. cbn [nth_error] in E.
+  injection E as <-. apply sort_bcache_inv; [exact Hs|reflexivity| |]; unfold file_recs at 1; cbn [bfile btbl].
+  - unfold set_slot. rewrite <- Hlen, firstn_all, skipn_all2 by lia. rewrite Htbl.
+    symmetry. apply firstn_all2. rewrite app_length. cbn [length]. rewrite <- Hlen. lia.
+  - apply Forall_app. split; [exact Hf|constructor; [exact Hr|constructor]].
+Qed.
+
+Theorem run_hist_inv srt : sorter_ok srt -> forall ops s s', Forall op_ok ops -> hist_inv s -> run_hist srt ops s = Some s' -> hist_inv s'.
+Proof.
+  intros Hs. induction ops as [|o ops IH]; intros s s' Ho Hi E; [injection E as <-; exact Hi|].
+  inversion Ho as [|? ? Ho1 Ho2]; subst. cbn [run_hist] in E. destruct o as [b| |r]; cbn [step_hist op_ok] in *.
+  - apply (IH _ _ Ho2 (install_inv srt b s Hs Ho1) E).
+  - apply (IH _ _ Ho2 (reload_inv srt s Hs Hi) E).
+  - destruct (create srt r s) as [s1|] eqn:Ec; [|discriminate]. apply (IH _ _ Ho2 (create_inv srt r s s1 Hs Ho1 Hi Ec) E).
+Qed.
+
+(* a creation is never refused while the table is coherent and has room *)
+Lemma create_total srt r s : hist_inv s -> Z.of_nat (length (btbl s)) < MAXB -> exists s', create srt r s = Some s'.
+Proof.
+  intros (Hb & Ht & _) Hm. unfold create. apply Z.leb_gt in Hm. rewrite Hm. apply Z.leb_gt in Hm.
+  unfold reset_board. cbn [bbusy bfile btbl bsn bsc]. rewrite Hb. cbn [Z.eqb]. unfold file_recs at 1. cbn [bfile].
+  assert (Hlen : length (btbl s) = length (file_recs s)).
+  { rewrite Ht. rewrite firstn_length. rewrite Ht, firstn_length in Hm. lia. }
+  rewrite Hlen, nth_error_app2, Nat.sub_diag by lia. cbn [nth_error]. eexists. reflexivity.
+Qed.
+
+(* ---------------------------------------------------------------- what the lookups return in every reachable state *)
+Lemma cprefix_bytes : forall l, bytes_ok l = true -> bytes_ok (cprefix l) = true.
+Proof.
+  induction l as [|c r IH]; intros H; [reflexivity|]. cbn [cprefix]. destruct (c =? 0); [reflexivity|].
+  cbn [bytes_ok forallb] in *. apply andb_prop in H. destruct H as [H1 H2]. rewrite H1. exact (IH H2).
+Qed.
+Lemma rec_name_bytes r : bytes_ok r = true -> bytes_ok (rec_name r) = true.
+Proof. intros H. apply cprefix_bytes. apply forallb_firstn, H. Qed.
+Lemma rec_title5_bytes r : bytes_ok r = true -> bytes_ok (rec_title5 r) = true.
+Proof. intros H. apply forallb_firstn, forallb_skipn, H. Qed.
+
+Lemma tbl_bytes s : hist_inv s -> forall r, In r (btbl s) -> bytes_ok r = true.
+Proof.
+  intros (_ & Ht & Hf & _) r Hin. rewrite Ht in Hin. apply ListX.In_firstn in Hin. rewrite Forall_forall in Hf. exact (Hf r Hin).
+Qed.
+Lemma tnames_bytes s : hist_inv s -> forallb bytes_ok (tnames s) = true.
+Proof.
+  intros Hi. apply forallb_forall. intros x Hx. apply in_map_iff in Hx. destruct Hx as (r & <- & Hr).
+  apply rec_name_bytes, (tbl_bytes s Hi r Hr).
+Qed.
+
+Lemma map_nth_seq' {A} (d : A) : forall l, map (fun i => nth i l d) (seq 0 (length l)) = l.
+Proof.
+  induction l as [|a l IH]; [reflexivity|]. cbn [length seq map nth]. f_equal.
+  rewrite <- seq_shift, map_map. cbn [nth]. exact IH.
+Qed.
+Lemma by_bids_perm {A} (d : A) l bids :
+  Permutation bids (map (fun i => Z.of_nat i + 1) (seq 0 (length l))) -> Permutation l (by_bids d l bids).
+Proof.
+  intros P. unfold by_bids. apply Permutation_sym. etransitivity; [apply Permutation_map, P|]. rewrite map_map.
+  rewrite (map_ext _ (fun i => nth i l d)); [rewrite map_nth_seq'; reflexivity|]. intros i. f_equal. lia.
+Qed.
+
+Theorem hist_lookups s : hist_inv s ->
+  (forall q, bytes_ok q = true -> exists b, get_bid (snames s) (bsn s) q = Ok b /\
+     ((1 <= b <= lenZ (tnames s) /\ cstrcasecmp (boardid q) (boardid (nth (Z.to_nat (b - 1)) (tnames s) [])) = 0) \/
+      (b = 0 /\ forall j, 0 <= j < lenZ (tnames s) -> cstrcasecmp (boardid q) (boardid (nth (Z.to_nat j) (tnames s) [])) <> 0))) /\
+  (forall q asc, bytes_ok q = true -> exists r, find_by_name (snames s) q asc = Ok r /\
+     ((1 <= r <= lenZ (snames s) /\ cmp_name (snames s) q (r - 1) = 0) \/ scan (cmp_name (snames s) q) (lenZ (snames s)) asc = Ok r)) /\
+  Permutation (tnames s) (snames s).
+Proof.
+  intros Hi. pose proof (tnames_bytes s Hi) as Hb. destruct Hi as (_ & _ & _ & Hn1 & Hn2 & _).
+  assert (P : Permutation (tnames s) (snames s)) by (apply by_bids_perm, Hn1).
+  split; [|split; [|exact P]].
+  - intros q Hq. exact (getbid_table (tnames s) (bsn s) q Hn1 Hb Hq Hn2).
+  - intros q asc Hq. exact (find_by_name_sorted (tnames s) (snames s) q asc (conj P Hn2) Hb Hq).
+Qed.
+
+(* by class, for tables whose fifth title byte is a blank (what mNewbrd writes) or a NUL (a vacated slot) *)
+Lemma nth_map_d {A B} (f : A -> B) d d' l i : f d = d' -> nth i (map f l) d' = f (nth i l d).
+Proof. intros <-. apply map_nth. Qed.
+Lemma combine_map {A B C} (f : A -> B) (g : A -> C) : forall l, combine (map f l) (map g l) = map (fun x => (f x, g x)) l.
+Proof. induction l as [|a l IH]; [reflexivity|]. cbn [map combine]. rewrite IH. reflexivity. Qed.
+
+Lemma class_index_eq s : combine (ctitles s) (cnames s) = by_bids ([], []) (tentries s) (bsc s).
+Proof.
+  unfold ctitles, cnames, tnames, tentries, by_bids.
+  rewrite (map_ext (fun b => nth (Z.to_nat (b - 1)) (map rec_title5 (btbl s)) []) (fun b => rec_title5 (nth (Z.to_nat (b - 1)) (btbl s) [])))
+    by (intros b; apply nth_map_d; reflexivity).
+  rewrite (map_ext (fun b => nth (Z.to_nat (b - 1)) (map rec_name (btbl s)) []) (fun b => rec_name (nth (Z.to_nat (b - 1)) (btbl s) [])))
+    by (intros b; apply nth_map_d; reflexivity).
+  rewrite (map_ext (fun b => nth (Z.to_nat (b - 1)) (map rec_entry (btbl s)) ([], [])) (fun b => rec_entry (nth (Z.to_nat (b - 1)) (btbl s) [])))
+    by (intros b; apply nth_map_d; reflexivity).
+  apply combine_map.
+Qed.
+
+Theorem hist_lookups_class s : hist_inv s -> Forall (fun r => title_ok (rec_title5 r)) (btbl s) ->
+  forall cls q asc, bytes_ok cls = true -> bytes_ok q = true ->
+  exists r, find_by_class (ctitles s) (cnames s) cls q asc = Ok r /\
+    ((1 <= r <= lenZ (cnames s) /\ cmp_class (ctitles s) (cnames s) cls q (r - 1) = 0) \/
+     scan (cmp_class (ctitles s) (cnames s) cls q) (lenZ (cnames s)) asc = Ok r).
+Proof.
+  intros Hi Htl cls q asc Hc Hq. pose proof (tbl_bytes s Hi) as Hb. destruct Hi as (_ & _ & _ & _ & _ & Hc1 & Hc2).
+  apply (find_by_class_sorted (tentries s)); try assumption.
+  - unfold ctitles, cnames, by_bids. rewrite !map_length. reflexivity.
+  - rewrite class_index_eq. split; [|exact Hc2]. apply by_bids_perm.
+    unfold bid_index, tentries in *. rewrite !map_length in Hc1. rewrite map_length. exact Hc1.
+  - apply Forall_forall. intros e He. unfold tentries in He. apply in_map_iff in He. destruct He as (r & <- & Hr).
+    rewrite Forall_forall in Htl. unfold entry_ok, rec_entry. cbn [fst snd].
+    split; [apply rec_title5_bytes, Hb, Hr|split; [apply rec_name_bytes, Hb, Hr|apply Htl, Hr]].
+Qed.
+
+(* ---------------------------------------------------------------- the insertion sort of the executable model is such a sorter *)
+Lemma insert_perm {A} (less : A -> A -> bool) x : forall l, Permutation (insert_by less x l) (x :: l).
+Proof.
+  induction l as [|y l IH]; [reflexivity|]. cbn [insert_by]. destruct (less x y); [reflexivity|].
+  etransitivity; [apply perm_skip, IH|apply perm_swap].
+Qed.
+Lemma isort_perm {A} (less : A -> A -> bool) : forall l, Permutation (isort_by less l) l.
+Proof.
+  induction l as [|a l IH]; [reflexivity|]. unfold isort_by in *. cbn [fold_right].
+  etransitivity; [apply insert_perm|apply perm_skip, IH].
+Qed.
+Lemma insert_sorted {A} (less : A -> A -> bool) (asym : forall a b, less a b = true -> less b a = false) x :
+  forall l, sorted_by less l = true -> sorted_by less (insert_by less x l) = true.
+Proof.
+  induction l as [|y l IH]; intros H; [reflexivity|]. cbn [insert_by]. destruct (less x y) eqn:E.
+  - change (negb (less y x) && sorted_by less (y :: l) = true). rewrite (asym _ _ E). exact H.
+  - destruct l as [|z l].
+    + cbn [insert_by sorted_by]. rewrite E. reflexivity.
+    + change (negb (less z y) && sorted_by less (z :: l) = true) in H. apply andb_prop in H. destruct H as [H1 H2].
+      specialize (IH H2). cbn [insert_by] in *. destruct (less x z) eqn:E2.
+      * change (negb (less x y) && sorted_by less (x :: z :: l) = true). rewrite E. exact IH.
+      * change (negb (less z y) && sorted_by less (z :: insert_by less x l) = true). rewrite H1. exact IH.
+Qed.
+Lemma isort_sorted {A} (less : A -> A -> bool) (asym : forall a b, less a b = true -> less b a = false) :
+  forall l, sorted_by less (isort_by less l) = true.
+Proof.
+  induction l as [|a l IH]; [reflexivity|]. unfold isort_by in *. cbn [fold_right]. apply insert_sorted; assumption.
+Qed.
+
+Lemma less_name_asym a b : less_name a b = true -> less_name b a = false.
+Proof.
+  rewrite !less_name_key. unfold lessK. intros H. apply Z.ltb_lt in H. apply Z.ltb_ge. rewrite ss_antisym. lia.
+Qed.
+Lemma less_class_asym a b : less_class a b = true -> less_class b a = false.
+Proof.
+  rewrite !less_class_key. unfold lessK. intros H. apply Z.ltb_lt in H. apply Z.ltb_ge. rewrite cmp2_anti. lia.
+Qed.
+
+Theorem isorter_ok : sorter_ok isorter.
+Proof.
+  split.
+  - intros names. unfold isorter, fst. split.
+    + unfold bid_index. apply isort_perm.
+    + unfold names_by. rewrite <- sorted_by_map. apply isort_sorted. intros a b. apply less_name_asym.
+  - intros ents. unfold isorter, snd. split.
+    + unfold bid_index. rewrite map_length. apply isort_perm.
+    + unfold by_bids. rewrite <- sorted_by_map. apply isort_sorted. intros a b. apply less_class_asym.
+Qed.
+
+(* ---------------------------------------------------------------- non-vacuity: the first board of a fresh site *)
+(* ReloadBCache with no .BRD, then the first board "Ab" (class "AAAA") is created: it is found in any letter case *)
+Definition ex_rec : list Z := mkrec [65; 98; 0; 0; 0; 0; 0; 0; 0; 0; 0; 0; 0; 65; 65; 65; 65; 32].
+Example ex_first_board :
+  exists s, run_hist isorter [OReload; OCreate ex_rec] fresh = Some s /\ bbusy s = 0 /\ tnames s = [[65; 98]] /\
+    get_bid (snames s) (bsn s) [97; 66] = Ok 1 /\ find_by_name (snames s) [65; 66] true = Ok 1 /\
+    find_by_class (ctitles s) (cnames s) [65; 65; 65; 65] [97; 98] false = Ok 1.
+Proof. eexists. split; [vm_compute; reflexivity|]. vm_compute. repeat split; reflexivity. Qed.
+(* an empty file, a file shorter than a record, a file with an incomplete last record: the complete records, no more *)
+Example ex_records : records [] = [] /\ records (repeat 122 100) = [] /\
+  map rec_name (records (ex_rec ++ repeat 122 255)) = [[65; 98]].
+Proof. vm_compute. repeat split; reflexivity. Qed.
+(* were the flag not released on the early return (bbusy = 1 after ReloadBCache without .BRD), the creation would be
+   refused: ResetBoard answers busy *)
+Example ex_flag_matters :
+  create isorter ex_rec (mk_bst None [] 1 [] []) = None /\ sort_bcache isorter (mk_bst None [ex_rec] 1 [] []) = mk_bst None [ex_rec] 1 [] [].
+Proof. vm_compute. split; reflexivity. Qed.
+
+(* ---------------------------------------------------------------- the next-cursor carries a name of the full field width *)
+(* the by-name cursor is CstrToString(Brdname) copied back into a BoardID_t (13 bytes): for EVERY name the C string in
+   the field is unchanged by the round trip, names of the full 12 characters included; the cursor of a board resolves
+   to that board (cursor_resolves, Proofs/C11_walk.v) *)
+Lemma cprefix_no_nul : forall l, ~ In 0 (cprefix l).
+Proof.
+  induction l as [|c r IH]; [intros []|]. cbn [cprefix]. destruct (c =? 0) eqn:E; [intros []|].
+  intros [H|H]; [apply Z.eqb_neq in E; lia|exact (IH H)].
+Qed.
+Lemma cprefix_length : forall l, (length (cprefix l) <= length l)%nat.
+Proof. induction l as [|c r IH]; [cbn; lia|]. cbn [cprefix]. destruct (c =? 0); cbn [length]; lia. Qed.
+
+Lemma cursor_field_roundtrip nm : cprefix (boardid (cprefix (boardid nm))) = cprefix (boardid nm).
+Proof.
+  set (p := cprefix (boardid nm)).
+  assert (Hl : (length p <= 13)%nat). { unfold p. etransitivity; [apply cprefix_length|]. unfold boardid. rewrite ListX.fixlen_length. lia. }
+  unfold boardid at 1. unfold fixlen. rewrite firstn_all2 by lia.
+  destruct (13 - length p)%nat as [|k] eqn:E.
+  - cbn [repeat]. rewrite app_nil_r. apply cprefix_nonul. apply cprefix_no_nul.
+  - cbn [repeat]. apply cprefix_app_nul. apply cprefix_no_nul.
+Qed.
+(* ... whereas a copy clipped at 11 bytes loses the twelfth character *)
+Example ex_clip11 : let nm := [97; 98; 99; 100; 101; 102; 103; 104; 105; 106; 107; 108] in
+  cprefix (boardid (cprefix (boardid nm))) = nm /\ cprefix (boardid (firstn 11 nm)) <> nm.
+Proof. vm_compute. split; [reflexivity|discriminate]. Qed.
+
+(* ---------------------------------------------------------------- the statements of Props/C11.v *)
+Theorem history_lookups srt ops s : sorter_ok srt -> Forall op_ok ops -> run_hist srt ops fresh = Some s ->
+  bbusy s = 0 /\ btbl s = firstn (Z.to_nat MAXB) (file_recs s) /\
+  (forall q, bytes_ok q = true -> exists b, get_bid (snames s) (bsn s) q = Ok b /\
+     ((1 <= b <= lenZ (tnames s) /\ cstrcasecmp (boardid q) (boardid (nth (Z.to_nat (b - 1)) (tnames s) [])) = 0) \/
+      (b = 0 /\ forall j, 0 <= j < lenZ (tnames s) -> cstrcasecmp (boardid q) (boardid (nth (Z.to_nat j) (tnames s) [])) <> 0))) /\
+  (forall q asc, bytes_ok q = true -> exists r, find_by_name (snames s) q asc = Ok r /\
+     ((1 <= r <= lenZ (snames s) /\ cmp_name (snames s) q (r - 1) = 0) \/ scan (cmp_name (snames s) q) (lenZ (snames s)) asc = Ok r)) /\
+  Permutation (tnames s) (snames s) /\ sorted_by less_name (snames s) = true.
+Proof.
+  intros Hs Ho E. pose proof (run_hist_inv srt Hs ops fresh s Ho hist_inv_fresh E) as Hi.
+  destruct (hist_lookups s Hi) as (H1 & H2 & H3). destruct Hi as (Hb & Ht & _ & _ & Hn2 & _).
+  repeat split; assumption.
+Qed.
+
+Theorem history_lookups_class srt ops s : sorter_ok srt -> Forall op_ok ops -> run_hist srt ops fresh = Some s ->
+  Forall (fun r => nth 4 (rec_title5 r) 0 = 32 \/ nth 4 (rec_title5 r) 0 = 0) (btbl s) ->
+  forall cls q asc, bytes_ok cls = true -> bytes_ok q = true ->
+  exists r, find_by_class (ctitles s) (cnames s) cls q asc = Ok r /\
+    ((1 <= r <= lenZ (cnames s) /\ cmp_class (ctitles s) (cnames s) cls q (r - 1) = 0) \/
+     scan (cmp_class (ctitles s) (cnames s) cls q) (lenZ (cnames s)) asc = Ok r).
+Proof.
+  intros Hs Ho E Ht. exact (hist_lookups_class s (run_hist_inv srt Hs ops fresh s Ho hist_inv_fresh E) Ht).
+Qed.
+
+Theorem history_creation_not_refused srt ops s r : sorter_ok srt -> Forall op_ok ops -> run_hist srt ops fresh = Some s ->
+  Z.of_nat (length (btbl s)) < MAXB -> exists s', create srt r s = Some s'.
+Proof.
+  intros Hs Ho E. exact (create_total srt r s (run_hist_inv srt Hs ops fresh s Ho hist_inv_fresh E)).
+Qed.
